@@ -17,7 +17,7 @@ RULE = ('store events on objects created with scale s and bias b (constructor, c
         'astype(float)) must return s*code*LSB+b exactly, upper/lower/precision must be the unscaled limits mapped through the affine map (precision '
         'through s only), and inferred sizes must be the sizes inferred for (v-b)/s. Only cases in which v, v-b and (v-b)/s are exact doubles. Key = (sign of '
         'scale, scale=1?, bias=0?, int/float parameters, rounding, overflow, outcome); non-trivial = (scale != 1 or bias != 0) and outcome != exact.')
-DECIDING_OPS = ['__init__', '__call__', 'get_val', '__setitem__']
+DECIDING_OPS = ['__init__', '__call__', 'get_val', '__setitem__', '__getitem__']
 ANCHORS = ['objects.Fxp._format_inupt_val', 'objects.Fxp.astype', 'objects.Fxp.resize']
 SHARDS = {'quick': 16, 'thorough': 16}
 _FL = ('overflow', 'underflow', 'inaccuracy')
@@ -128,23 +128,42 @@ def make_judges(ctx):
         ctx.floor_hit(('params', sc > 0, sc == 1, bi == 0))
 
     def read_judge(ev):
-        if ev.kind != 'method' or ev.op not in ('get_val', 'astype') or ev.exc is not None and False:
+        if ev.kind != 'method' or ev.op not in ('get_val', 'astype', '__call__'):
             return
         x = ev.pre[0] if ev.pre else None
         if x is None or (x.scale == 1 and x.bias == 0) or x.is_complex:
             return
-        if ev.op == 'astype' and ev.args != (float,):
-            return
-        if ev.op == 'get_val' and (ev.args or ev.kwargs):
-            return
+        index = item = None
+        if ev.op == '__call__':
+            if ev.args or ev.kwargs:
+                return
+        else:
+            d = dict(zip(('dtype', 'index', 'item'), ev.args))
+            d.update(ev.kwargs)
+            if ev.op == 'astype' and d.get('dtype') is not float:
+                return
+            if ev.op == 'get_val' and d.get('dtype') is not None:
+                return
+            index, item = d.get('index'), d.get('item')
         ab = affine_of(x)
         if ab is None or not (1 <= x.n_word <= 16 and -8 <= x.n_frac <= x.n_word + 8):
             ctx.skip('read:outside domain')
             return
         sc, bi = ab
         lsb = R.lsb(x.n_frac)
-        exp = [sc * k * lsb + bi for k in x.codes]
-        if not all(is_double(e) and is_double(sc * k * lsb) for e, k in zip(exp, x.codes)):
+        codes = x.codes
+        if index is not None or item is not None:
+            try:
+                a = np.empty(len(x.codes), dtype=object)
+                a[:] = x.codes
+                a = a.reshape(x.shape)
+                sel = a[index] if index is not None else a.item(item)
+                codes = np.asarray(sel, dtype=object).ravel().tolist()
+            except Exception:
+                ctx.skip('read:index not applicable in the model')
+                return
+        exp = [sc * k * lsb + bi for k in codes]
+        if not all(is_double(e) and is_double(sc * k * lsb) for e, k in zip(exp, codes)):
             ctx.skip('read:an intermediate is not an exact double')
             return
         if ev.exc is not None:
@@ -159,21 +178,23 @@ def make_judges(ctx):
             dt = np.dtype(x.vdtype)
         except TypeError:
             dt = None
-        if ev.op == 'get_val' and dt is not None and dt.kind in 'iu':
+        if ev.op in ('get_val', '__call__') and dt is not None and dt.kind in 'iu':
             # integer value dtype: get_val floors the unscaled value first
-            exp2 = [sc * F(R.floor_f(k * lsb)) + bi for k in x.codes]
+            exp2 = [sc * F(R.floor_f(k * lsb)) + bi for k in codes]
             ok = got in (exp, exp2)
         else:
             ok = got == exp
         if not ok:
             ctx.violation('read', '%s of %s scale=%r bias=%r codes %s returned %.80r, expected %s' % (ev.op, R.dtype_fxp(*x.fmt()), x.scale, x.bias, x.codes[:3], ev.result, [str(e) for e in exp[:3]]), ev)
-        ctx.judged(('read', ev.op, sc > 0, sc == 1, bi == 0, any(k < 0 for k in x.codes)), True, None, elements=len(exp))
+        ctx.judged(('read', ev.op, 'element' if (index is not None or item is not None) else 'whole', sc > 0, sc == 1, bi == 0, any(k < 0 for k in codes)), True, None, elements=len(exp))
         ctx.floor_hit(('read', ev.op))
+        if index is not None or item is not None:
+            ctx.floor_hit(('read', 'element'))
     return [store_judge, read_judge]
 
 
 def floors(tier):
-    return [('route', r) for r in ('constructor', 'call', 'setitem', 'set_val')] + [('read', 'get_val'), ('read', 'astype'), ('inferred',)] + \
+    return [('route', r) for r in ('constructor', 'call', 'setitem', 'set_val')] + [('read', 'get_val'), ('read', 'astype'), ('read', '__call__'), ('read', 'element'), ('inferred',)] + \
            [('params', True, False, True), ('params', False, False, True), ('params', True, True, False), ('params', True, False, False), ('params', False, False, False)]
 
 
@@ -238,12 +259,41 @@ def run_case(case, ctx):
         _try(lambda: a.astype(float))
         _try(lambda: a.__setitem__(1, inp(vs[0])))
         _try(lambda: a.get_val())
+        _try(lambda: a.get_val(index=1))
+        _try(lambda: a.get_val(item=2))
+        _try(lambda: a[0]())
+        _try(lambda: a.astype(float, index=2))
     ia = [int(v) for v in vs if v.denominator == 1][:3]
     if ia:
         b = _try(lambda: Fxp(ia, s, w, nf, **kw))
         if b is not None:
             _try(lambda: b.get_val())
             _try(lambda: b.astype(float))
+            _try(lambda: b())
+            _try(lambda: b.get_val(index=0))
+            _try(lambda: b[len(ia) - 1]())
+            _try(lambda: b.get_val(item=0))
+    # integer-only corner: unsigned, n_frac = 0, integer inputs, unit scale, negative integer bias (unsigned codes + negative bias)
+    if i % 4 == 0:
+        wu = rng.randint(1, 16)
+        bneg = -rng.randint(1, 40)
+        hi_u = (1 << wu) - 1
+        ints = [rng.randint(0, hi_u) + bneg for _ in range(3)]
+        for r2, o2 in (G.MODES[i % 10], G.MODES[(i + 5) % 10]):
+            c = _try(lambda: Fxp(ints, False, wu, 0, bias=bneg, rounding=r2, overflow=o2))
+            if c is not None:
+                _try(lambda: c.get_val())
+                _try(lambda: c())
+                _try(lambda: c.get_val(index=0))
+                _try(lambda: c[1]())
+                _try(lambda: c.get_val(item=2))
+                _try(lambda: c.astype(float))
+                _try(lambda: c.__setitem__(0, ints[2] + 1))
+                _try(lambda: c.get_val(index=0))
+            d1 = _try(lambda: Fxp(ints[0], False, wu, 0, bias=bneg, scale=rng.choice([1, -1, 2])))
+            if d1 is not None:
+                _try(lambda: d1.get_val())
+                _try(lambda: d1())
     # size inference sizes the transformed value
     dy = [v for v in vs if abs(((v - bi) / sc).numerator) < 2 ** 30 and ((v - bi) / sc).denominator <= 2 ** 16]
     if dy:
